@@ -1172,7 +1172,11 @@ func Abolish(vm *VM, pi Term, k Cont, env *Env) *Promise {
 					return Error(domainError(validDomainNotLessThanZero, arity, env))
 				}
 				key := procedureIndicator{name: name, arity: arity}
-				if u, ok := vm.procedures[key].(*userDefined); !ok || !u.dynamic {
+				p, ok := vm.procedures[key]
+				if !ok {
+					return k(env) // There's no such procedure: nothing to abolish.
+				}
+				if u, ok := p.(*userDefined); !ok || !u.dynamic {
 					return Error(permissionError(operationModify, permissionTypeStaticProcedure, key.Term(), env))
 				}
 				delete(vm.procedures, key)
